@@ -51,6 +51,18 @@ def gen_requests(ck, tier):
     reqs = sorted(r.json_lines, key=lambda x: json.dumps(x, sort_keys=True))
     if not reqs or len(reqs) != r.distinct:
         raise ToolError("Validation printed %d requests for %d states" % (len(reqs), r.distinct))
+    if tier == "quick":
+        # directed pairs the single-class sample cannot contain: a stream long enough for the server to have APPLIED a chunk
+        # (10 000 items) whose last item cannot even be decoded (message over the size limit) - "refused" must not come with
+        # documents loaded.  Taken from the pair-wise enumeration of the same module.
+        r2 = tlc("Validation", consts={"Width": 2}, workers=4, timeout=900)
+        ck.add_tlc("Validation: pairs of non-default field classes (directed requests for the quick tier)", r2)
+        want = [q for q in r2.json_lines if q["rpc"] in ("BulkInsert", "BulkLoadHnsw") and q["auth"] == "off" and q["f"]["batch"] == "max1"
+                and q["f"]["vec"] == "huge" and q["f"]["pos"] == "last" and q["f"]["id"] in ("one", "-") and q["f"]["tgt"] in ("live", "-")]
+        seen = {json.dumps(q, sort_keys=True) for q in reqs}
+        for q in sorted(want, key=lambda x: json.dumps(x, sort_keys=True))[:2]:
+            if json.dumps(q, sort_keys=True) not in seen:
+                reqs.append(dict(q, directed=True))
     full = None
     if tier == "thorough":
         rf = tlc("Validation", consts={"Width": 9}, workers=4, timeout=1500)
@@ -324,7 +336,21 @@ class Planner:
                     d["filter"] = flt
                 return d
             if rpc == "Search":
-                st.append(self.step(rpc, search(f["vec"], f["k"], f["ef"], f["filt"]), "read", exp, payload="results"))
+                unusual = f["vec"] != "valid" or f["k"] not in ("1", "max") or f["ef"] not in ("0", "1", "max")
+                if unusual:
+                    # "keeps serving later requests": the same unusable request several times in a row must not change how the
+                    # server answers others - a sentinel document that only the canonical (cold) tier holds is looked up
+                    # afterwards (a tripped circuit breaker makes such a lookup answer "not found")
+                    a = self.slot()
+                    v, m = self.doc()
+                    st.append(self.s_insert(a, v, m))
+                    st.append(self.step("FlushHotTier", {"force": True}, "read", "Accept", role="setup"))
+                    req = search(f["vec"], f["k"], f["ef"], f["filt"])
+                    for _ in range(4):
+                        st.append(self.step(rpc, dict(req), "read", exp, payload="results"))
+                    st.append(self.step("Query", {"doc_id": self.cid(a), "include_embedding": True}, "read", "Accept", touch=[a], payload="found"))
+                else:
+                    st.append(self.step(rpc, search(f["vec"], f["k"], f["ef"], f["filt"]), "read", exp, payload="results"))
             else:
                 n = {"0": 0, "1": 1, "3": 3, "max": MAXBATCH, "max1": MAXBATCH + 1}[f["batch"]]
                 items, nbad = self.stream_layout(n, f["pos"], lambda: search("valid", "1"),
@@ -608,7 +634,9 @@ class Runner:
                         self.stats["ordinary_failed_examples"].append({"rpc": rpc, "answer": resp, "items": total})
         return {"ev": "req", "n": len(self.events), "rpc": rpc, "exp": st["exp"], "kind": st["kind"],
                 "answered": answered(rec), "next": nxt, "ok": ok, "groups": st["groups"], "applied": applied,
-                "failed": failed, "res": res, "payload": payload, "cen": cen, "extra": extra, "count": count}
+                "failed": failed, "res": res, "payload": payload, "cen": cen, "extra": extra, "count": count,
+                # a point lookup the model expects to be served (abstract id; 0 = none): "keeps serving later requests"
+                "probe": (st["touch"][0] if st.get("payload") == "found" and st["exp"] == "Accept" and st.get("touch") else 0)}
 
     def sync(self, what, all_slots, started=True):
         creqs, layout = self.census_reqs(list(all_slots()))
@@ -808,7 +836,7 @@ def select_for_mode(reqs, mode, mi, nmodes, tier, rnd):
     cheap = [q for q in mine if not expensive(q)]
     big = sorted((q for q in mine if expensive(q)), key=lambda x: json.dumps(x, sort_keys=True))
     if tier == "quick":
-        keep = [q for i, q in enumerate(big) if (i + seed()) % 2 == (1 if mode["auth"] else 0)]
+        keep = [q for i, q in enumerate(big) if q.get("directed") or (i + seed()) % 2 == (1 if mode["auth"] else 0)]
     else:
         base = [q for q in big if q["faults"] <= 1]
         rest = [q for q in big if q["faults"] > 1]
@@ -821,6 +849,19 @@ def exec_mode(mode, reqs, rnd, tier, tag):
     P = Planner(mode["auth"], mode["metric"], rnd)
     mine, skipped_big = select_for_mode(reqs, mode, 0, 0, tier, rnd)
     blocks = make_blocks(mine, rnd)
+    # "keeps serving later requests": every unusable-vector class of Search runs in EVERY server configuration (the class
+    # sample above gives each class to one configuration only, and what an unusable query does to the server depends on the
+    # metric: normalisation exists for cosine / inner product only).  Planner.plan repeats such a search four times and then
+    # looks up a sentinel document that only the canonical tier holds.
+    have = {q["f"]["vec"] for q in mine if q["rpc"] == "Search"}
+    extra = []
+    for cls in ("overflow", "huge", "nan", "pinf", "ninf", "zero", "empty", "dimlo", "dimhi"):
+        src = next((q for q in reqs if q["rpc"] == "Search" and q["f"]["vec"] == cls and q["f"]["k"] == "1"), None) or \
+              next((q for q in reqs if q["rpc"] == "Search" and q["f"]["vec"] == cls), None)
+        if src is not None and cls not in have:
+            extra.append(dict(src, auth="on" if mode["auth"] else "off"))
+    if extra:
+        blocks.append(extra)
     plan = []
     for bi, b in enumerate(blocks):
         steps = list(P.seed_other_tenant()) if (bi == 0 and mode["auth"]) else []
